@@ -44,3 +44,88 @@ Theorem C12_or_skips_right : forall ia ib exec original f st info pr v,
   end.
 Proof. exact or_skips_right. Qed.
 Print Assumptions C12_or_skips_right.
+
+(* ---- Proofs/NoEvalFacts2.v: ?:, the kinds of error a skipped operand can raise, nesting ---- *)
+From Molt Require Import Proofs.NoEvalFacts2.
+
+(* c ? x : y with c true: y is read in no-eval mode and contributes nothing; the value is x's *)
+Theorem C12_cond_true_skips_else : forall ia ib exec original f st info pr v,
+  e_token info = T_QUESTY -> (pr < prec T_QUESTY)%Z -> datum_truth v = Some true ->
+  expr_loop ia ib exec original (S f) st info pr v =
+  match expr_get_value ia ib exec original f st info pq with
+  | (st2, Ok (va, i2)) =>
+      if negb (Z.eqb (e_token i2) T_COLON) then (st2, syntax_error original)
+      else
+        match snd (expr_get_value ia ib exec original f st2 (with_noeval i2 (e_noeval info + 1)) pq) with
+        | Ok (_, i3) =>
+            let i3' := with_noeval i3 (e_noeval info) in
+            if bad_after_token i3' then (st2, syntax_error original)
+            else expr_loop ia ib exec original f st2 i3' pr va
+        | Err e => (st2, Err e)
+        | Panic p => (st2, Panic p)
+        | Fuel => (st2, Fuel)
+        end
+  | (st2, Err e) => (st2, Err e)
+  | (st2, Panic p) => (st2, Panic p)
+  | (st2, Fuel) => (st2, Fuel)
+  end.
+Proof. exact questy_true_skips_else2. Qed.
+Print Assumptions C12_cond_true_skips_else.
+
+(* c ? x : y with c false: dually *)
+Theorem C12_cond_false_skips_then : forall ia ib exec original f st info pr v,
+  e_token info = T_QUESTY -> (pr < prec T_QUESTY)%Z -> datum_truth v = Some false ->
+  expr_loop ia ib exec original (S f) st info pr v =
+  match snd (expr_get_value ia ib exec original f st (with_noeval info (e_noeval info + 1)) pq) with
+  | Ok (_, i2) =>
+      let i2' := with_noeval i2 (e_noeval info) in
+      if negb (Z.eqb (e_token i2') T_COLON) then (st, syntax_error original)
+      else
+        match expr_get_value ia ib exec original f st i2' pq with
+        | (st3, Ok (va, i3)) =>
+            if bad_after_token i3 then (st3, syntax_error original) else expr_loop ia ib exec original f st3 i3 pr va
+        | (st3, Err e) => (st3, Err e) | (st3, Panic p) => (st3, Panic p) | (st3, Fuel) => (st3, Fuel)
+        end
+  | Err e => (st, Err e) | Panic p => (st, Panic p) | Fuel => (st, Fuel)
+  end.
+Proof. exact questy_false_skips_then2. Qed.
+Print Assumptions C12_cond_false_skips_then.
+
+(* a skipped operand cannot raise a run-time error: whatever error comes out of no-eval mode is a
+   plain error whose message is none of the run-time ones (unset variable, unknown command,
+   division by zero, operand type, overflow, shift count, math-function argument, ...) *)
+Theorem C12_skipped_errors_are_not_runtime : forall ia ib exec original fuel st info pr st' e,
+  noeval info = true ->
+  expr_get_value ia ib exec original fuel st info pr = (st', Err e) ->
+  x_code e = CError /\
+  forall p, In p runtime_prefixes -> starts_with p (as_str (x_value e)) = false.
+Proof. exact noeval_errors_not_runtime. Qed.
+Print Assumptions C12_skipped_errors_are_not_runtime.
+
+(* ... it is one of the syntax messages (reader errors, "syntax error in expression", unknown
+   math function, an integer literal outside i64 - C12_skipped_literal_out_of_range) *)
+Theorem C12_skipped_errors_are_syntax : forall ia ib exec original fuel st info pr st' e,
+  noeval info = true ->
+  expr_get_value ia ib exec original fuel st info pr = (st', Err e) ->
+  exists m, e = molt_err m /\ syntax_msg original m.
+Proof. exact noeval_errors_are_syntax. Qed.
+Print Assumptions C12_skipped_errors_are_syntax.
+
+(* command substitutions in a skipped operand have no effect: the executor is never consulted *)
+Theorem C12_skipped_never_calls_commands : forall ia ib original exec1 exec2 fuel st info pr,
+  noeval info = true ->
+  expr_get_value ia ib exec1 original fuel st info pr = expr_get_value ia ib exec2 original fuel st info pr.
+Proof. exact noeval_exec_irrelevant. Qed.
+Print Assumptions C12_skipped_never_calls_commands.
+
+(* skipping inside a skipped operand cannot re-enable evaluation: the counter is balanced in
+   every mode *)
+Theorem C12_counter_balanced : forall ia ib exec original fuel st info pr st' v info',
+  expr_get_value ia ib exec original fuel st info pr = (st', Ok (v, info')) -> e_noeval info' = e_noeval info.
+Proof. exact counter_restored. Qed.
+Print Assumptions C12_counter_balanced.
+
+Theorem C12_skipped_never_panics : forall ia ib exec original fuel st info pr st' q,
+  noeval info = true -> expr_get_value ia ib exec original fuel st info pr <> (st', Panic q).
+Proof. exact noeval_no_panic. Qed.
+Print Assumptions C12_skipped_never_panics.
